@@ -133,7 +133,7 @@ class Trend(BaseGridder):
         self.region_ = get_region((easting, northing))
         # Use a floating point type even if the data are integers so that the
         # coordinates aren't truncated
-        dtype = np.result_type(data.dtype, "float32")
+        dtype = data.dtype if data.dtype.kind == "f" else np.dtype("float64")
         jac = self.jacobian((easting, northing), dtype=dtype)
         self.coef_ = least_squares(jac, data, weights, damping=None)
         return self
@@ -163,7 +163,9 @@ class Trend(BaseGridder):
         shape = np.broadcast(*coordinates[:2]).shape
         # Use a floating point type for the predictions even if the
         # coordinates are integers
-        dtype = np.result_type(easting.dtype, northing.dtype, "float32")
+        dtype = np.result_type(easting.dtype, northing.dtype)
+        if dtype.kind != "f":
+            dtype = np.dtype("float64")
         # Calculate the powers in floating point to avoid integer overflow
         easting, northing = easting.astype(dtype), northing.astype(dtype)
         data = np.zeros(easting.size, dtype=dtype)
@@ -218,8 +220,10 @@ class Trend(BaseGridder):
         if easting.shape != northing.shape:
             raise ValueError("Coordinate arrays must have the same shape.")
         # Calculate the powers in floating point to avoid integer overflow
-        easting = easting.astype(np.result_type(easting.dtype, "float32"))
-        northing = northing.astype(np.result_type(northing.dtype, "float32"))
+        easting, northing = (
+            i if i.dtype.kind == "f" else i.astype("float64")
+            for i in (easting, northing)
+        )
         combinations = polynomial_power_combinations(self.degree)
         ndata = easting.size
         nparams = len(combinations)
